@@ -16,6 +16,7 @@ CONSTANTS
  LockPut = TRUE
  LockDel = FALSE
  LockDelEarly = FALSE
+ ObsFilters = {"none", "t1", "x"}
  CowIndex = FALSE
 INIT GInit
 NEXT GNext
